@@ -218,6 +218,21 @@ func PopulateStructFields(m map[string]any, data any) {
 		// Add the field itself (for path resolution like item.inStock)
 		m[tagName] = fieldValue
 	}
+
+	// Fields are also reachable by their Go names, which Lookup tries before JSON tags;
+	// a Go name therefore wins over another field's tag of the same spelling
+	for i := range rt.NumField() {
+		f := rt.Field(i)
+		if !f.IsExported() {
+			continue
+		}
+		fv := rv.Field(i)
+		fieldValue := fv.Interface()
+		if fv.Kind() == reflect.Struct || (fv.Kind() == reflect.Ptr && fv.Type().Elem().Kind() == reflect.Struct) {
+			fieldValue = StructToMap(fieldValue)
+		}
+		m[f.Name] = fieldValue
+	}
 }
 
 // IsSlice reports whether v is a slice or array.
